@@ -19,11 +19,14 @@ from pathlib import Path
 from harness import kit
 
 # Negative control: one TLC run of C17_Gen with every Buggy_* switch on and
-# -continue; each switch has an invariant only it can break, TLC MUST name all three.
+# -continue; each switch has an invariant only it can break, TLC MUST name all of them.
 NEG_CFG = "C17_Gen_neg_all"
 NEG_MUST = {"Inv_NoForeignHash": "Buggy_PickleCarriesHash",
             "Inv_DigestIsStructural": "Buggy_DigestUsesProcess",
-            "Inv_CompiledComputes": "Buggy_CompiledLosesVars"}
+            "Inv_CompiledComputes": "Buggy_CompiledLosesVars",
+            # round 7: a decorator that reads the wrong one of its options leaves a class with a
+            # hand-written __init__ without a hash that works where dataclasses are frozen
+            "Inv_NothingRaised": "Buggy_OptionsCrossed"}
 # round 2: a second run with the other three switches (own instantiations: a user node with a
 # keyword-only field, a compiled expression using a context name, a DAG next to the equal tree)
 NEG2_CFG = "C17_Gen_neg_all2"
@@ -344,7 +347,10 @@ def run(tier, seed, out):
                 "canonical JSON of (instantiation, history).  Catalogue entries come in building "
                 "modes (tree / DAG with shared subexpression objects / parsed from text / defaults "
                 "omitted / numpy constants) that are the same structure; compiled expressions list their "
-                "leading variables by name / as Variable objects / as the leaf-subclass objects of the expression")
+                "leading variables by name / as Variable objects / as the leaf-subclass objects of the expression; "
+                "user node types are declared with every usable option combination of the decorator (init=False "
+                "with a hand-written __init__, hash=False with an own / inherited hash), as leaf and inner node, "
+                "one entry per combination under every configuration tuple")
     out.exhaustive = True
     out.extra["exhaustive_schedules"] = exhaustive_cases
     out.extra["catalogue_entries"] = len(head["cat"])
